@@ -50,6 +50,9 @@ type Tape struct {
 	VKind   string         `json:"vkind,omitempty"`  // assert | panic (for violations)
 	Label   string         `json:"label,omitempty"`
 	Where   string         `json:"where,omitempty"`
+	// MapOrder: the path depends on the iteration order of a Go map with several entries (the executor explores
+	// every order; natively the order is random, so the replay is repeated until it is hit)
+	MapOrder bool `json:"map_order,omitempty"`
 }
 
 type ViolationRec struct {
@@ -272,7 +275,7 @@ func (x *Exec) runHarness(fn *ssa.Function) (end pathEnd) {
 }
 
 func (x *Exec) makeTape(job Job, model map[string]uint64, events []Event, kind, label, where string) Tape {
-	t := Tape{Harness: job.Harness, Params: job.Params, Kind: kind, Label: label, Where: where}
+	t := Tape{Harness: job.Harness, Params: job.Params, Kind: kind, Label: label, Where: where, MapOrder: x.mapOrderChoices > 0}
 	for id, open := range x.openKnown {
 		if open {
 			t.Known = append(t.Known, id)
